@@ -29,6 +29,8 @@ type c19Case struct {
 	SpokMode   int      `json:"spok_mode,omitempty"`   // permission bits of the spokfile (0: 0644)
 	Umask      int      `json:"umask,omitempty"`       // file mode creation mask of the spok process (0: 022)
 	CacheBlock string   `json:"cache_block,omitempty"` // the cache directory cannot be created: "file" (.spok is a regular file) | "rodir" (project directory not writable)
+	Partial    bool     `json:"partial,omitempty"`     // with PreCache: the cache file is there, the .gitignore and tag beside it are not
+	VCSAbove   bool     `json:"vcs_above,omitempty"`   // the directory above the project (and the project itself) is the top of a git work tree with its own .gitignore
 }
 
 var c19Ignores = []string{"node_modules/\n*.log", "a\r\nb\r\n", "a\n\n\n", "trail\\ \n", "x\n.spok/\n", "\n", " \t\n"}
@@ -118,6 +120,18 @@ func c19Cases(tier string) []c19Case {
 			}
 		}
 	}
+	// a cache directory that is only partly there (the cache file without the .gitignore beside it) and
+	// the project as a sub-directory of a git work tree: whatever spok completes or appends to is in
+	// .spok or, for --init, in the working directory - never a file of the same name elsewhere
+	for _, cl := range []string{"valid", "absent"} {
+		for _, a := range actions {
+			for _, nested := range []bool{false, true} {
+				for _, gi := range []bool{false, true} {
+					out = append(out, c19Case{Class: cl, Action: a, Nested: nested, GitIgnore: gi, PreCache: cl == "valid", Partial: cl == "valid", VCSAbove: true})
+				}
+			}
+		}
+	}
 	// the cache directory cannot be created: an error, and nothing is written anywhere else (HOME is in the sandbox)
 	for _, blk := range []string{"file", "rodir"} {
 		for _, a := range actions {
@@ -177,7 +191,14 @@ func c19Run(root string, c c19Case) (obs []c19Obs, outcome string) {
 	}
 	if c.PreCache {
 		t.File("home/w/proj/.spok/cache.json", `{"t":"","u":""}`)
-		t.File("home/w/proj/.spok/.gitignore", "*\n")
+		if !c.Partial {
+			t.File("home/w/proj/.spok/.gitignore", "*\n")
+		}
+	}
+	if c.VCSAbove {
+		t.File("home/w/.git/HEAD", "ref: refs/heads/main\n")
+		t.File("home/w/.gitignore", "# the repository's own\n/dist\n")
+		t.File("home/.git/HEAD", "ref: refs/heads/main\n")
 	}
 	cwd := proj
 	cwdRel := "home/w/proj"
